@@ -18,7 +18,7 @@ const c12MaxRate = 1 << 40
 func VerifC12_RandomCycles() {
 	maxN := 4
 	if zz.Thorough() {
-		maxN = 11
+		maxN = 6
 	}
 	n := zz.Choice("N", maxN-1) + 2
 	rateCalls, curCycle, curTick := 0, 0, 0
